@@ -36,6 +36,9 @@ def run(out, tier, seed):
         calls = [rng.choice(objs) for _ in range(rng.randint(1, 4))]
         cases.append({"id": len(cases), "src": "enter", "target": rng.choice(objs[:6]), "calls": calls,
                       "method": rng.choice(["meth", "tree"]), "path": "enter", "via": [True] * len(calls)})
+        calls = [rng.choice(objs) for _ in range(rng.randint(1, 4))]
+        cases.append({"id": len(cases), "src": "external", "target": rng.choice(objs[:6]), "calls": calls,
+                      "method": "glob", "path": "external", "via": [True] * len(calls)})
         calls = [rng.choice(["k1", "k2", "s1", "e1", "e3"]) for _ in range(rng.randint(1, 3))]
         cases.append({"id": len(cases), "src": "nested2", "target": rng.choice(["k1", "k2", "e1"]), "target2": rng.choice(["k2", "s1", "e3"]),
                       "calls": calls, "method": "tree", "path": "nested2", "via": [True] * len(calls)})
@@ -54,7 +57,7 @@ def run(out, tier, seed):
     for tup in r2.tagged("FAIL"):
         c = by[tup[1]]
         seen.add(c["src"])
-        out.judge({"clause": tup[2], "why": tup[3], "path": c["path"] if c["path"] in ("enter", "nested2") else ""},
+        out.judge({"clause": tup[2], "why": tup[3], "path": c["path"] if c["path"] in ("enter", "nested2", "external") else ""},
                   {"selector": c["text"], "calls": c["calls"], "events": c["events"], "outcome": c["outcome"]})
     for s in sigs:
         if "witness:" + s not in seen:
